@@ -250,6 +250,13 @@ def part_user(script, depth, amts, mode):
                      f"valid declaration {ev} raised {res[1]}: {res[2]}",
                      {'world': script, 'failed': ev})
         return st
+    # a converter registered on a linearly scaled type must not take part:
+    # conversion is by the ratio of the scales
+    for tname, tm in w.tm.items():
+        if tm.ref is not None:
+            w.types[tname].register_converter(
+                lambda qty, to_unit: F(7) if qty.unit is not to_unit
+                else qty.amount)
     for tname, tm in w.tm.items():
         syms = tm.units
         if len(syms) < 2:
